@@ -1898,6 +1898,55 @@ namespace awkward {
         identities_.get());
     }
 
+    {
+      // the code below assumes that the slice's rows are contiguous and start at 0
+      int64_t n = slicestarts.length();
+      bool contiguous = (n == 0  ||  slicestarts.getitem_at_nowrap(0) == 0);
+      int64_t total = 0;
+      for (int64_t i = 0;  i < n;  i++) {
+        if (i + 1 < n  &&  slicestarts.getitem_at_nowrap(i + 1) != slicestops.getitem_at_nowrap(i)) {
+          contiguous = false;
+        }
+        total += slicestops.getitem_at_nowrap(i) - slicestarts.getitem_at_nowrap(i);
+      }
+      if (!contiguous) {
+        Index64 positions(total);
+        Index64 newoffsets(n + 1);
+        int64_t k = 0;
+        newoffsets.setitem_at_nowrap(0, 0);
+        for (int64_t i = 0;  i < n;  i++) {
+          for (int64_t j = slicestarts.getitem_at_nowrap(i);  j < slicestops.getitem_at_nowrap(i);  j++) {
+            positions.setitem_at_nowrap(k, j);
+            k++;
+          }
+          newoffsets.setitem_at_nowrap(i + 1, k);
+        }
+        SliceItemPtr compact = slicecontent.carry(positions);
+        if (SliceMissing64* raw = dynamic_cast<SliceMissing64*>(compact.get())) {
+          return getitem_next_jagged(util::make_starts(newoffsets),
+                                     util::make_stops(newoffsets),
+                                     *raw,
+                                     tail);
+        }
+      }
+      if (dynamic_cast<SliceJagged64*>(slicecontent.content().get())) {
+        // the slice positions are used as positions in content_: row lengths must agree
+        for (int64_t i = 0;  i < n;  i++) {
+          int64_t slicecount = slicestops.getitem_at_nowrap(i) - slicestarts.getitem_at_nowrap(i);
+          int64_t count = (int64_t)stops_.getitem_at_nowrap(i) - (int64_t)starts_.getitem_at_nowrap(i);
+          if (slicecount != count) {
+            util::handle_error(
+              failure("jagged slice inner length differs from array inner length",
+                      i,
+                      kSliceNone,
+                      FILENAME_C(__LINE__)),
+              classname(),
+              identities_.get());
+          }
+        }
+      }
+    }
+
     Index64 missing = slicecontent.index();
     int64_t numvalid;
     struct Error err1 = kernel::ListArray_getitem_jagged_numvalid_64(
